@@ -220,7 +220,16 @@ def check(tier: str, replay: Optional[str] = None) -> int:
     logging.disable(logging.CRITICAL)   # non-strict mode logs every downgraded problem
     import odxtools._verif as hook
     v = Verdicts(PROP, tier)
-    ops, valid, sensitive, neutral = build_ops()
+    try:
+        ops, valid, sensitive, neutral = build_ops()
+    except tlc.MachineryError:
+        raise
+    except Exception as e:  # noqa: BLE001
+        # the (valid) documents of the catalogue cannot be loaded in strict mode
+        v.fail("valid_fails", {"machine": "StrictMode", "history": [], "op": "load of the catalogue",
+                               "exc": f"{type(e).__name__}: {str(e)[:160]}"})
+        return v.finish({"states": 0, "transitions": 0, "traces_validated_against_impl": 0, "samples": []},
+                        ["the catalogue could not be built"])
     rec = Recorder()
     hook.set_sink(rec.sink)
     if not hook.ENABLED:
